@@ -21,6 +21,17 @@ open Ctrmml Ctrmml.Pipeline Driver
 /-- bounds of the model stream (bytes of MML text) -/
 def maxText : Nat := 6000
 def maxTextOpt : Nat := 1500
+/-- events of the whole song above which the optimiser model is not run (its search is cubic) -/
+def maxEventsOpt : Nat := 120
+/-- values of one tag above which the definition compilers of Model/MdsData are not run -/
+def maxTagValues : Nat := 100
+
+/-- why the model is not run on this parsed input (`none` = it is) -/
+def tooBig (opt : Bool) (st : Mml.MmlState) : Option String :=
+  let events := (st.song.tracks.map fun p => p.2.events.length).foldl (· + ·) 0
+  let tags := tagListOf (Refs.replayTags st.song.tagCalls)
+  if opt && events > maxEventsOpt then some "optimiser-input" else
+  if tags.any (fun kv => kv.2.length > maxTagValues) then some "long-definition" else none
 
 def unmodelled : Residual :=
   { vgmPlay := fun _ _ => .foreign "UNMODELLED:vgm-play-loop",
@@ -69,6 +80,9 @@ def model (arg : String) : String :=
   | none => "bad-request"
   | some r =>
     if r.text.length > (if r.opt then maxTextOpt else maxText) then "skipped:size" else
+    match (match parseStage r.text with | .ok st => tooBig r.opt st | _ => none) with
+    | some why => s!"skipped:{why}"
+    | none =>
     let (stage, out) := pipelineS unmodelled r.files r.opt r.fmt { steps := Refs.validatorFuel, passes := 100000 } r.text
     -- files of a real directory are not visible to the model: only the stages before the export count
     if r.dirSide && mentionsPcm r.text && (stage == .export || stage == .link) then "unmodelled@export:sample-directory" else
